@@ -59,9 +59,25 @@ EXPLICIT = [
 ]
 
 
+def trailing_leaf_family(tier):
+    """values whose serialised form crosses a power-of-two size (64 KiB ... 16 MiB, 32 MiB in the thorough tier) and that
+    differ only in what comes AFTER the large payload: a digest computed over blocks must cover the last partial block"""
+    out = []
+    sizes = [(1 << 16) + 7, (1 << 20) + 4096, (1 << 24) + 4096] + ([(1 << 25) + 11] if tier != "quick" else [])
+    for n in sizes:
+        big = ["Z", "zeros", n, 0]
+        for tail in (["i", "1"], ["i", "2"], ["b", 1], ["f", "1.0"], ["s", "a"], ["y", "61"]):
+            out.append(["T", [big, tail]])
+        out.append(["L", [big, ["L", [["i", "1"]]]]])
+        out.append(["L", [big, ["T", [["i", "1"]]]]])
+        out.append(["D", [[["s", "data"], big], [["s", "z"], ["S", [["i", "1"]]]]]])
+        out.append(["D", [[["s", "data"], big], [["s", "z"], ["F", [["i", "1"]]]]]])
+    return out
+
+
 def universe(tier, seed):
     n = 2000 if tier == "quick" else 30000
-    out = [(i, s, True) for i, s in enumerate(EXPLICIT)]
+    out = [(i, s, True) for i, s in enumerate(EXPLICIT + trailing_leaf_family(tier))]
     rng = harness.rng_for(seed, ID, "universe")
     i = len(out)
     seen = {gen_obj.canon(s) for _, s, _ in out}
